@@ -24,6 +24,8 @@ DECIDED = [
     "its constructor joins; every name/id entering a routing key passes a fullmatch of the validators",
     "R-C07-MARKER: construct/check/deconstruct of the bucket marker use one KEY; check is bounded to the start of the payload; the payload fetch "
     "falls back to the inline payload",
+    "R-C07-FALSY (tests): on the transport path (job, brokers, consumers, processor) no truthiness test decides about a payload / priority / arguments value - presence is tested with `is None`",
+    "R-C07-ALPHABET (prefix): the Redis topic prefixes end with the ':' separator (C11's rule reused)",
 ]
 NOT_DECIDED = ["value-level identity decode(encode(x)) == x (float round trip of durations at microsecond precision, timezones)"]
 ASSUMPTIONS = ["json round-trips str/int/bool/None; datetime.isoformat/fromisoformat and total_seconds/timedelta(seconds=float) are mutually inverse at the stated precision"]
